@@ -575,19 +575,19 @@ def OpNoNaN : Op → Prop
 
 /-! ### self-consistency -/
 
-theorem PyFloat.eq_self (f : PyFloat) (h : f ≠ .nan) : PyFloat.eq f f = true := by
+theorem PyFloat.eq_self_c10 (f : PyFloat) (h : f ≠ .nan) : PyFloat.eq f f = true := by
   cases f <;> simp [PyFloat.eq] at *
 
-theorem floatValueOk_self (env : Env) (f : PyFloat) (p : Option Nat) (h : f ≠ .nan) :
+theorem floatValueOk_self_c10 (env : Env) (f : PyFloat) (p : Option Nat) (h : f ≠ .nan) :
     floatValueOk env f f p = true := by
   cases p with
-  | none => simp [floatValueOk, isclose, PyFloat.eq_self f h]
+  | none => simp [floatValueOk, isclose, PyFloat.eq_self_c10 f h]
   | some pr =>
     simp only [floatValueOk, eqAtPrecision]
     split
     · rename_i a b h1 h2
       rw [h1] at h2; cases h2; simp
-    · exact PyFloat.eq_self f h
+    · exact PyFloat.eq_self_c10 f h
 
 theorem floatValueOk_nan (env : Env) (p : Option Nat) : floatValueOk env .nan .nan p = false := by
   cases p with
@@ -604,13 +604,13 @@ theorem argFloat_eq (a f) (h : argFloat a = some f) : a = .v (.float f) := by
   | _ => simp [argFloat] at h
 
 
-theorem strDeclLen_ok (v L a L') (h : strDeclLen v L a = .ok L') :
+theorem strDeclLen_ok_c10 (v L a L') (h : strDeclLen v L a = .ok L') :
     L'.minLen = L.minLen ∧ L'.maxLen = L.maxLen ∧ ∃ n, L'.len = some n ∧ ∀ s, v = some s → (s.length : Int) = n := by
   unfold strDeclLen at h; grind
-theorem strDeclMin_ok (v L a L') (h : strDeclMin v L a = .ok L') :
+theorem strDeclMin_ok_c10 (v L a L') (h : strDeclMin v L a = .ok L') :
     L'.len = L.len ∧ L'.maxLen = L.maxLen ∧ ∃ n, L'.minLen = some n ∧ ∀ s, v = some s → n ≤ (s.length : Int) := by
   unfold strDeclMin at h; grind
-theorem strDeclMax_ok (v L a L') (h : strDeclMax v L a = .ok L') :
+theorem strDeclMax_ok_c10 (v L a L') (h : strDeclMax v L a = .ok L') :
     L'.len = L.len ∧ L'.minLen = L.minLen ∧ ∃ n, L'.maxLen = some n ∧ ∀ s, v = some s → (s.length : Int) ≤ n := by
   unfold strDeclMax at h; grind
 
@@ -622,14 +622,14 @@ theorem strLenDispatch_ok (v : Option Str) (L : LenP) (a b : Arg) (L' : LenP) (h
   unfold declLenDispatch at h
   intro s hs
   split at h
-  · have := strDeclMax_ok _ _ _ _ h; grind [LenOK]
+  · have := strDeclMax_ok_c10 _ _ _ _ h; grind [LenOK]
   · split at h
-    · have := strDeclLen_ok _ _ _ _ h; grind [LenOK]
+    · have := strDeclLen_ok_c10 _ _ _ _ h; grind [LenOK]
     · split at h
-      · have := strDeclMin_ok _ _ _ _ h; grind [LenOK]
+      · have := strDeclMin_ok_c10 _ _ _ _ h; grind [LenOK]
       · obtain ⟨L1, h1, h2⟩ := bind_ok _ _ _ h
-        have := strDeclMin_ok _ _ _ _ h1
-        have := strDeclMax_ok _ _ _ _ h2
+        have := strDeclMin_ok_c10 _ _ _ _ h1
+        have := strDeclMax_ok_c10 _ _ _ _ h2
         grind [LenOK]
 
 
@@ -700,7 +700,7 @@ theorem decl_preserves_selfConsistent (env : Env) (k k' : ScalarS) (op : Op)
         have := argFloat_eq a f ha
         subst this
         have hf : f ≠ .nan := by intro hf; subst hf; exact hn
-        have := floatValueOk_self env f p hf
+        have := floatValueOk_self_c10 env f p hf
         grind [ScalarS.fixed, ConformsScalar]
     case float.min v mn mx p d1 d2 a =>
       rw [declScalar_float_min] at h
@@ -717,7 +717,7 @@ theorem decl_preserves_selfConsistent (env : Env) (k k' : ScalarS) (op : Op)
       simp only [SelfConsistent, validateScalar_nil_iff] at hc ⊢
       intro w hw
       have := floatValueOk_self_ne_nan env
-      have := floatValueOk_self env
+      have := floatValueOk_self_c10 env
       grind [ScalarS.fixed, ConformsScalar]
     case str.call v L al sub pat a =>
       rw [declScalar_str_call] at h
